@@ -29,6 +29,7 @@ Act(x, c) ==
     [] c.op = "yield" -> [x EXCEPT !.y = Rep32(c.h)]
     [] c.op = "provide" -> [x EXCEPT !.pv = @ \cup {c.b}]
     [] c.op = "checkpoint" -> x
+    [] c.op \in {"upgrade", "solicit"} -> x            \* change components outside this abstraction (code hash, lookups)
 
 RECURSIVE Fold(_, _, _)
 \* regular context after the first k calls
@@ -55,6 +56,9 @@ K2 == <<107, 50>>           \* "k2": initially absent
 Writes(ks) == {[op |-> "write", k |-> k, v |-> v] : k \in ks, v \in {<<1, 2, 3>>, <<>>}}
 Others == {[op |-> "transfer", amt |-> 100], [op |-> "new", c |-> 201], [op |-> "yield", h |-> 31], [op |-> "yield", h |-> 32],
            [op |-> "provide", b |-> <<5, 6, 7, 8>>], [op |-> "provide", b |-> <<9, 9>>], [op |-> "checkpoint"]}
+\* further state-changing calls, judged through the exact snapshot comparison only
+Extra == {[op |-> "upgrade", c |-> 55], [op |-> "solicit", h |-> 66, z |-> 10], [op |-> "checkpoint"],
+          [op |-> "write", k |-> K2, v |-> <<1, 2, 3>>], [op |-> "yield", h |-> 31]}
 AlphabetOf(tier) == Others \cup Writes(IF tier = "quick" THEN {KA, K2} ELSE {KA, K1, K2})
 
 =============================================================================
